@@ -90,6 +90,19 @@ def judge_message(col: common.Collector, ll: codecrun.LoadedLayer, model: Dict[s
             accepted.append((vals, e.value))
         elif e.ok:
             warned.append((vals, e.value))  # still a successful encoding: its length counts
+        elif e.exc_family != "foreign":
+            # every parameter that is reported as required is supplied (the generator leaves
+            # out only what is reported as optional: defaults, length and table keys) and the
+            # reference can lay the assignment out: then it is the omission of a parameter that
+            # is NOT reported as required which makes encoding fail
+            kr, _er = codecrun.ref_encode(ll.ref, rq, vals, request)
+            missing_required = [n for n in reqd.value if n not in vals]
+            if kr == "ok" and not missing_required:
+                col.ev()
+                bad("omission-fails-but-not-required", "complete-assignment-rejected/" +
+                    codecrun.offender_any(ll.ref, rq),
+                    f"all required parameters {reqd.value} are supplied, the reference can lay the "
+                    f"assignment out, yet: {e.exc_type}: {e.exc}", values=vals)
     if not accepted and not warned:
         col.count("messages-without-accepted-assignment")
         return
@@ -170,6 +183,47 @@ def judge_message(col: common.Collector, ll: codecrun.LoadedLayer, model: Dict[s
     for n in reqd.value:
         if n not in kind_of:
             bad("required-unknown-parameter", "name", f"{n} is not a parameter of the message")
+    # (3b) the same for the parameters of structures used by the message (directly or as the
+    # items of a field): omitted in every instance at once
+    for avals, _ in accepted[:4]:
+        for p in rq["params"]:
+            n = p["name"]
+            if n not in avals or p["p"] != "VALUE":
+                continue
+            pobj = next((x for x in obj.parameters if x.short_name == n), None)
+            dopo = getattr(pobj, "dop", None)
+            st = dopo if hasattr(dopo, "required_parameters") and hasattr(dopo, "parameters") else \
+                getattr(dopo, "structure", None)
+            if st is None or not hasattr(st, "required_parameters"):
+                continue
+            is_field = st is not dopo
+            items = avals[n] if is_field else [avals[n]]
+            if not isinstance(items, list) or not items or not all(isinstance(it, dict) for it in items):
+                continue
+            sreq_o = codecrun.call(lambda st=st: {x.short_name for x in st.required_parameters})
+            if not sreq_o.ok:
+                bad("static-query-raises", "required_parameters/nested", f"{sreq_o.exc_type}: {sreq_o.exc}")
+                continue
+            for sp in st.parameters:
+                sname = sp.short_name
+                if not any(sname in it for it in items):
+                    continue
+                less_items = [{k: x for k, x in it.items() if k != sname} for it in items]
+                less = dict(avals)
+                less[n] = less_items if is_field else less_items[0]
+                e = codecrun.encode(obj, less, request)
+                col.ev()
+                col.count("nested-omissions")
+                tag = f"nested/{type(sp).__name__}/{'field-items' if is_field else 'structure'}"
+                if not e.ok and sname not in sreq_o.value:
+                    bad("omission-fails-but-not-required", tag,
+                        f"without {n}.{sname} (in {len(items)} instance(s)): {e.exc_type}: {e.exc}, but "
+                        f"{sname} is not in the structure's required_parameters {sorted(sreq_o.value)}",
+                        values=avals)
+                elif e.ok and sname in sreq_o.value:
+                    bad("required-but-omission-accepted", tag,
+                        f"{n}.{sname} is reported as required, yet encoding without it gives "
+                        f"{e.value.hex()}", values=avals)
     # (4) free parameters
     for p in rq["params"]:
         n = p["name"]
